@@ -17,7 +17,8 @@ declare_fields(_state=VAL, _active_timer=VAL, _fsm_event_active=BOOL, _next_even
                _ct_chainlimit=INT,
                # timer handles (asyncio.TimerHandle), ghost view
                h_live=BOOL, h_when=REAL, h_event=VAL, h_owner=Ref('FSM'),
-               n_live=INT)      # ghost per FSM: number of its live (scheduled, not cancelled, not fired) timer handles
+               n_live=INT,      # ghost per FSM: number of its live (scheduled, not cancelled, not fired) timer handles
+               persistent=BOOL, st_items=DICT)
 Q = 'edzed.fsm:FSM.'
 OV = OptOf(Val)
 FSM_FIELDS = ('_state', '_next_event', '_fsm_event_active', '_active_timer', 'sdata', 'h_live', 'h_when', 'h_event', 'h_owner', 'task_cancelled', 'n_live')
@@ -253,8 +254,9 @@ def call_later(ex, e, st):
         s1 = s1.copy()
         h = fresh('handle', IntSort())
         me = as_kind(s1.env['self'], Ref(), s1)
-        if not (isinstance(cb, PBound) and cb.name == 'event'):
-            raise Unsupported('call_later with a callback other than self.event')
+        if not (isinstance(cb, PBound) and cb.name in ('_timer_expired', 'event')):
+            raise Unsupported('call_later with a callback other than self._timer_expired / self.event')
+        s1.ghost['timer_callback'] = cb.name
         ex.oblige('call:call_later/pre:callback_is_this_fsm_event', s1, as_kind(cb.recv, Ref(), s1) == me, kind='pre')
         ex.emit(s1, rec('call_later', Val.Obj(h), to_val(d, s1), to_val(arg, s1)))
         s1.assume(Not(s1.readz('h_live', h)), Not(s1.readz('task_cancelled', h)))       # a fresh handle
@@ -275,6 +277,9 @@ def _set_timer(c):
     c.ensures('one_new_live_handle', And(Val.is_Obj(new), c.post('h_live', h), c.post('h_owner', h) == me, Not(c.post('task_cancelled', h)),
                                          c.post('h_when', h) == c.S.g('now') + d, c.post('h_event', h) == ev))
     c.ensures('exactly_one_pending_timer', c.post('n_live', me) == 1)
+    if c.verifying:
+        # the callback must clear the handle when it fires (FSM._timer_expired): otherwise a fired handle looks like a pending timer
+        c.ensures('callback_clears_the_fired_handle', BoolVal(c.T.g('timer_callback') == '_timer_expired'))
     c.ensures('invariant_T', timer_invariant(c.T, me))
     c.ensures('other_fsms_untouched', c.post_whole('n_live') == Store(c.pre_whole('n_live'), me, IntVal(1)))
 
@@ -333,6 +338,20 @@ def _start_timer(c):
                                         r == rec('set_timer', Val.Obj(me), Val.R(Val.r(d)), ev)))
     c.expect_trace(expected, 1, normal_len=None, predicate=True)
     c.ensures('inf_means_never__zero_means_now__else_timer', c.T.tn == If(inf, 0, 1))
+
+
+@contract('FSM._timer_expired', qual=Q + '_timer_expired', modifies=FSM_EFFECTS + ('__cause__', 'persistent', 'st_items'), self_cls='FSM')
+def _timer_expired(c):
+    me, ev = c.z('self'), c.v('timed_event')
+    at = c.pre('_active_timer', me)
+    # called by the event loop when the live handle fires (environment step: the handle is no longer live)
+    c.requires('the_handle_has_just_fired', And(at != Val.VNone, Not(c.pre('h_live', Val.ref(at))), c.pre('n_live', me) == 0))
+    for cls in ('DeliveryError', 'EdzedCircuitError', 'EdzedUnknownEvent', 'OtherException', 'TypeError', 'ValueError'):
+        c.raises(cls, unchanged=False)
+    if c.verifying:
+        def expected(k, r, st):
+            return And(k == 0, r == rec('event', Val.Obj(me), ev, kw=EMPTY_DICT), st.readz('_active_timer', me) == Val.VNone)
+        c.expect_trace(expected, 1, predicate=True)
 
 
 @contract('FSM.stop', qual=Q + 'stop', modifies=('_active_timer', 'h_live', 'task_cancelled', 'n_live'), self_cls='FSM')
@@ -580,7 +599,7 @@ def _fsm_event(c):
 
 
 def verify_fsm(run, what=('c03', 'c04')):
-    G = dict(ctx=Const('ctx0', DictS), phase=IntVal(P_PRE), now=z3.Real('now'), calc_val=Val.VNone)
+    G = dict(ctx=Const('ctx0', DictS), phase=IntVal(P_PRE), now=z3.Real('now'), calc_val=Val.VNone, timer_callback=None)
     hooks = {'goto_state_attr': True, 'with': event_entry.with_enable_event}
     if 'c03' in what:
         run.verify('FSM._check_state', cls='FSM')
@@ -598,3 +617,4 @@ def verify_fsm(run, what=('c03', 'c04')):
         run.verify('FSM._set_timer', cls='FSM', ghost=G, calls={'asyncio.get_running_loop().call_later': call_later})
         run.verify('FSM._start_timer', cls='FSM', ghost=G, calls={'utils.time_period': time_period_call})
         run.verify('FSM.stop', cls='FSM', calls={'super().stop': super_stop}, ghost=G)
+        run.verify('FSM._timer_expired', cls='FSM', ghost=G)
